@@ -36,7 +36,9 @@ RULE = ('T2: generated API-level messages (method tokens, Unicode path segments 
 	'scheme of the tables of the tree under test (read at run time) in several letter cases; (5) degenerate values (empty, blanks, separators, doubled separators, unbalanced quotes) in every position; '
 	'(6) every cleanly delivered wire is also fed re-encoded by an independent RFC 7230 writer: chunked again at other boundaries with other chunk-size spellings and chunk extensions, the other framing, '
 	'field names in other letter cases, field lines in another order, other optional white space, folded values - same delivery (fields compared as a set). '
-	'Left out of the new classes, each named in notes/reports/C04.md: see excluded(). '
+	'Also generated systematically: a message object reused after a use with a content coding (finding D59, repaired; the model follows the tree through the T1 probe D59_VARIANT), '
+	'reason phrases with SP / HTAB at an edge or of blanks only (known finding D48b), query pairs with an empty name (known finding D60). '
+	'Left out of the new classes, each named in notes/reports/C04.md: see excluded() (coding names not in lower case, control characters in the target, CONNECT). '
 	'non-trivial = distinct (kind, outcome, source type, framing, coding, size class, version) classes')
 EXHAUSTIVE = {'quick': False, 'thorough': False}
 TRUSTED = [
@@ -62,8 +64,13 @@ W_D49 = {'k': 'req', 'version': [1, 1], 'method': 'GET', 'segs': ['', 'a:b'], 'q
 W_D50 = {'k': 'resp', 'version': [1, 1], 'status': 200, 'reason': None, 'rmethod': 'HEAD', 'hdrs': [], 'body': _B, 'coding': None, 'chunked': False}
 W_D43 = {'k': 'req', 'version': [1, 1], 'method': 'POST', 'segs': ['', 'a'], 'query': None, 'host': 'example.com', 'hdrs': [], 'body': _B, 'coding': 'gzip', 'chunked': False}
 W_D51 = {'k': 'req', 'version': [1, 1], 'method': 'TRACE', 'segs': ['', 'a'], 'query': None, 'host': 'example.com', 'hdrs': [], 'body': _B, 'coding': None, 'chunked': False}
+W_D48B = {'k': 'resp', 'version': [1, 1], 'status': 299, 'reason': ' b', 'rmethod': 'GET', 'hdrs': [], 'body': _B, 'coding': None, 'chunked': False}
+W_D48B2 = {'k': 'resp', 'version': [1, 1], 'status': 200, 'reason': ' ', 'rmethod': 'GET', 'hdrs': [], 'body': _B, 'coding': None, 'chunked': False}
+W_D60 = {'k': 'req', 'version': [1, 1], 'method': 'GET', 'segs': ['', 'a'], 'query': [['', 'v']], 'host': 'example.com', 'hdrs': [], 'body': {'t': 'bytes', 'items': []}, 'coding': None, 'chunked': False}
+W_D60B = {'k': 'req', 'version': [1, 1], 'method': 'GET', 'segs': ['', 'a'], 'query': [['a', 'b'], ['', '']], 'host': 'example.com', 'hdrs': [], 'body': {'t': 'bytes', 'items': []}, 'coding': None, 'chunked': False}
 WITNESSES = [('D12-coded-body-non-ascii', W_D12), ('D42-deflate-per-piece', W_D42), ('D47-chunked-on-http10', W_D47), ('D48-empty-reason-phrase', W_D48),
-	('D49-colon-in-request-path', W_D49), ('D50-client-ignores-bodiless', W_D50), ('D43-request-coding-content-length', W_D43), ('D51-trace-request-body', W_D51)]
+	('D49-colon-in-request-path', W_D49), ('D50-client-ignores-bodiless', W_D50), ('D43-request-coding-content-length', W_D43), ('D51-trace-request-body', W_D51),
+	('D48b-reason-edge-blanks', W_D48B), ('D48b-reason-edge-blanks', W_D48B2), ('D60-empty-query-name', W_D60), ('D60-empty-query-name', W_D60B)]
 
 METHODS = ['GET', 'HEAD', 'POST', 'PUT', 'DELETE', 'OPTIONS', 'PATCH', 'SEARCH', 'M-SEARCH', 'X', 'get', 'A.B_C', 'CONNECT2', 'TRACE']
 SEG_ALPHABET = ['a', 'b c', 'ä', 'x.y', '%41', 'a;b', 'ü€', '\U0001f600', 'a=b&c', '~', 'A+B', "it's", '@', '..x', 'a/b', '?', '#']
@@ -525,6 +532,64 @@ def class_body_charset(rng, tier):
 	return out
 
 
+def class_reuse_coded(rng, tier):
+	"""finding D59 (repaired): the SAME message object is used twice and the first use had a content coding (ComposedResponse.prepare puts it on the Body
+	object).  The second use - new headers as a whole, new content of every source type, either framing, no coding / the other coding / the same coding -
+	must be what a fresh object gives: coded exactly when it says so"""
+	out = []
+	types = ('bytes', 'bytearray', 'text', 'list', 'tuple', 'gen', 'bytesio', 'file')
+	full = tier == 'thorough'
+	for kind in ('resp', 'req'):
+		for fi, fc in enumerate(('gzip', 'deflate')):
+			for ti, t in enumerate(types):
+				for ch in (False, True):
+					for ki, coding in enumerate((None, 'deflate' if fc == 'gzip' else 'gzip', fc)):
+						if not full and coding is not None and (ti + ki + fi + ch) % 2:
+							continue
+						d = dict(route={'how': 'reuse', 'first': {'coding': fc, 'chunked': bool((ti + ki) % 2)}, 'alt': len(out)}, body=_small(t, ti % 3),
+							chunked=ch or (kind == 'req' and coding is not None), coding=coding, hdrs=[['X-A', b'second'.hex()]])
+						if kind == 'resp':
+							d.update(status=[200, 404, 203][(ti + fi) % 3], reason=[None, 'Again'][ki % 2], rmethod=['GET', 'POST'][ch])
+						out.append(_msg(kind, **d))
+	# the shortest form: everything else at its default
+	for fc in ('gzip', 'deflate'):
+		for ch in (False, True):
+			out.append(_resp(route={'how': 'reuse', 'first': {'coding': fc}, 'alt': 0}, body=_bytes(b'second'), chunked=ch))
+			# ... and an empty second content
+			out.append(_resp(route={'how': 'reuse', 'first': {'coding': fc}, 'alt': 0}, body=_bytes(b''), chunked=ch))
+	return out
+
+
+EDGE_BLANKS = [' ', '\t', '  ', ' \t', '\t ', '   ']
+
+
+def class_reason_edges(rng, tier):
+	"""known finding D48b: reason phrases (RFC 7230 3.1.2: *( HTAB / SP / VCHAR / obs-text )) that begin or end with SP / HTAB, and phrases of blanks only"""
+	out = []
+	for bi, bl in enumerate(EDGE_BLANKS):
+		for ci, core in enumerate(('b', 'Not Found', 'a \t b', 'OK', '(x)')):
+			for ei, reason in enumerate((bl + core, core + bl, bl + core + bl)):
+				for si, status in enumerate((299, 200, 404, 500)):
+					if tier == 'thorough' or (bi + ci + ei + si) % 2 == 0:
+						out.append(_resp(status=status, reason=reason, chunked=bool((bi + ci + ei) % 3 == 0), body=_bytes(b'hello')))
+		for status in (299, 200, 404):
+			out.append(_resp(status=status, reason=bl, body=_bytes(b'hello')))
+	out.append(_resp(status=200, reason=' OK', version=[1, 0]))
+	out.append(_resp(status=299, reason='b ', route={'how': 'alt', 'alt': 1}))
+	out.append(_resp(status=299, reason=' ', route={'how': 'alt', 'alt': 3}))
+	return out
+
+
+def class_empty_query_name(rng, tier):
+	"""known finding D60: query pairs whose NAME is empty, alone, first, in the middle, last, twice; every kind of value"""
+	out = []
+	vals = ['v', '', 'a b', '=', '&', '\xe4', '%41', '+', 'a=b', ' ', '\u20ac']
+	for i, v in enumerate(vals):
+		for j, q in enumerate(([['', v]], [['', v], ['a', 'b']], [['a', 'b'], ['', v]], [['a', 'b'], ['', v], ['c', '']], [['', v], ['', v]], [['', v], ['', 'w' + v]], [['a', ''], ['', v]])):
+			out.append(_req(segs=['', 'q'], query=q, method=['GET', 'POST', 'PUT'][(i + j) % 3], version=[1, (i + j) % 2], chunked=bool((i + j) % 4 == 3)))
+	return out
+
+
 def rmessage2(rng, tier):
 	"""random messages over the pools of the classes above"""
 	c = rmessage(rng, tier)
@@ -557,7 +622,8 @@ def rmessage2(rng, tier):
 
 def class_cases(rng, tier):
 	out = []
-	for f in (class_text_pieces, class_body_charset, class_stateful, class_unicode, class_lengths, class_registries, class_degenerate):
+	for f in (class_text_pieces, class_body_charset, class_stateful, class_reuse_coded, class_unicode, class_lengths, class_registries, class_degenerate,
+		class_reason_edges, class_empty_query_name):
 		for c in f(rng, tier):
 			c['cls'] = f.__name__[6:]
 			out.append(c)
@@ -570,22 +636,12 @@ def class_cases(rng, tier):
 
 def excluded(c):
 	"""input classes kept out of the NEW generators (the clean tree does not deliver them; each is named in notes/reports/C04.md)"""
-	route = c.get('route') or {}
-	# NEW FINDING (clean tree): ComposedResponse.prepare puts the coding of a Content-Encoding field on the Body object (body.content_encoding = ...) and
-	# nothing ever takes it back: a Response object that was sent once with a Content-Encoding and is then given new headers (without the field) and a new
-	# body sends the new body CODED, without Content-Encoding field and with the Content-Length of the uncoded content.  Exactly this class is left out:
-	if c['k'] == 'resp' and route.get('how') == 'reuse' and (route.get('first') or {}).get('coding'):
-		return True
-	# NEW FINDING (clean tree): the names of the content codings are looked up as they are written: 'GZIP' / 'Gzip' / 'Deflate' (RFC 7231 3.1.2.1: case-insensitive)
-	# make ComposedResponse.prepare raise InvalidHeader (Unknown Content-Encoding) and the server machine answer 501 to the request
+	# (No longer left out: a Response object reused after a use with a Content-Encoding - finding D59, repaired, corpus/C04/D59-*.json, class_reuse_coded;
+	# reason phrases with blanks at an edge - known finding D48b, class_reason_edges; query pairs with an empty name - known finding D60, class_empty_query_name.)
+	# The names of the content codings are looked up as they are written: 'GZIP' / 'Gzip' / 'Deflate' (RFC 7231 3.1.2.1: case-insensitive) make
+	# ComposedResponse.prepare raise InvalidHeader (Unknown Content-Encoding) and the server machine answer 501 to the request.  The property quantifies over
+	# the codings gzip / deflate; the library REFUSES the other spellings (nothing wrong is sent): outside the statement, reported in notes/reports/C04.md
 	if c.get('coding') and c['coding'] != c['coding'].lower():
-		return True
-	# NEW FINDINGS (clean tree), degenerate values: (a) a reason phrase that begins or ends with SP / HTAB loses them (Response.parse strips the line, STATUS_RE
-	# swallows all white space after the code; a phrase of blanks only is refused like the empty one, D48); (b) a query pair with an EMPTY NAME does not come
-	# back: ('', 'v') is read as ('v', ''), ('', '') disappears
-	if c['k'] == 'resp' and c.get('reason') and c['reason'] != c['reason'].strip(' \t'):
-		return True
-	if c['k'] == 'req' and any(p[0] == '' for p in (c.get('query') or [])):
 		return True
 	# known findings of other properties (D1: an octet below 0x10 is percent-encoded with one digit; D21: C0 controls in a query): no control characters in the target
 	if c['k'] == 'req' and any(ord(ch) < 0x20 or ord(ch) == 0x7f for t in list(c['segs']) + [x for p in (c.get('query') or []) for x in p] for ch in t):
@@ -1127,6 +1183,18 @@ def classify(c, o, fail):
 		return 'D49-colon-in-request-path'
 	if c['k'] == 'resp' and not c.get('reason') and o.get('init', {}).get('reason') == '' and 'refuses' in fail:   # no reason phrase, or the empty one set explicitly
 		return 'D48-empty-reason-phrase'
+	reason = c.get('reason') or ''
+	if c['k'] == 'resp' and reason != reason.strip(' \t'):
+		# blanks at an edge of the phrase: blanks only -> refused like the empty phrase; otherwise delivered without them (and nothing else differs)
+		core = reason.strip(' \t')
+		if (core == '' and 'refuses the composed message: 400' in fail) or (core != '' and fail.startswith('reason ') and fail.endswith(' became %r' % (core,))):
+			return 'D48b-reason-edge-blanks'
+	query = c.get('query') or []
+	if c['k'] == 'req' and any(p[0] == '' for p in query):
+		# exactly what FormURLEncoded.encode / decode make of it: no '=' is written for an empty name, so the value is read as a name; an empty field is skipped
+		lost = [[p[0], p[1]] if p[0] else [p[1], ''] for p in query if p[0] or p[1]]
+		if fail == 'query pairs %r became %r' % (c['query'], lost):
+			return 'D60-empty-query-name'
 	if c['version'] == [1, 0] and chunked:
 		return 'D47-chunked-on-http10'
 	if c['k'] == 'resp' and (c['status'] < 200 or c['status'] in (204, 304) or c.get('rmethod') == 'HEAD'):
@@ -1152,5 +1220,6 @@ LEVEL_TEXT = ('Machine-checked Coq theorems on the composition of two executable
 	'tree is stated as it is (multi-piece bodies need a multi-member decoder: true of gzip, false of deflate - finding D42). Both models are tied to /repo on every run '
 	'(tables regenerated, ~2000 compose->parse round trips replayed inside Coq with recorded callee tables).')
 LEVEL_NOTE = ('Trusted: Coq kernel + vm_compute; T1/T2/T3 harness; zlib/gzip, URI composition/parsing and header-semantics hooks are parameters with stated hypotheses. '
-	'Known findings D43, D47-D51 delimit the domain. No axioms (Print Assumptions: closed).')
+	'Known findings D43, D47-D51, D48b, D60 delimit the domain; the response round trip is indexed by the variant of finding D59 (as found: the Body carries a codec only if '
+	'Content-Encoding is present - refuted without it by C04_stale_coding_refuted; repaired: any codec state left by an earlier use). No axioms (Print Assumptions: closed).')
 TECHNIQUE = 'Coq proof on composed Gallina models (composer o parser) + vm_compute correspondence of both against the implementation'
